@@ -130,7 +130,10 @@ def run(ck):
         g = getfn(ck, "rs", CC, "<" + CC + "::types::" + tyname + " as std::str::FromStr>::from_str")
         if not g:
             continue
-        ps_ = [(bi, (t["f"].get("gargs") or [""])[-1]) for (bi, t) in g.calls(r"str::<impl str>::parse$|from_str_radix$")]
+        # parse::<T>() carries the target as its last generic argument, <T as FromStr>::from_str / T::from_str_radix as the Self type
+        ps_ = [(bi, (t["f"].get("gargs") or [""])[-1]) for (bi, t) in g.calls(r"str::<impl str>::parse$")]
+        ps_ += [(bi, (t["f"].get("gargs") or [""])[0]) for (bi, t) in g.calls(r"^std::str::FromStr::from_str$")]
+        ps_ += [(bi, m_.group(1) or m_.group(2)) for (bi, t) in g.calls(r"from_str_radix$") for m_ in [re.search(r"<impl (\w+)>::from_str_radix$|num::(\w+)::from_str_radix$", t["f"].get("path") or "")] if m_]
         okp = len(ps_) >= 1 and all(ty_ == "u64" for (_, ty_) in ps_)
         ck.ob("CALLEE", g.path, "numeric-part-parsed-as-u64", okp, "the number is parsed as u64, the width of the stored milliseconds" if okp else
               "the numeric part is parsed as %s: values the type holds (and prints) do not parse back" % sorted(set(ty_ for (_, ty_) in ps_)), g.loc(ps_[0][0]) if ps_ else g.loc())
